@@ -18,7 +18,7 @@ def record(ctx, files=FILES, max_cells=64, timeout=1500):
     cmd = [sys.executable, '-m', 'pytest', '-q', '-p', 'no:cacheprovider', '-p', 'harness.suite_plugin', '-n', '12',
            '--timeout=900', '-x', '-W', 'ignore'] + files
     p = subprocess.run(cmd, cwd=repo, env=env, capture_output=True, text=True, timeout=timeout)
-    events = {'refine': [], 'conn': []}
+    events = {'refine': [], 'conn': [], 'dofs': [], 'bc': []}
     seen = set()
     for f in sorted(glob.glob(out + '.*.json')):
         d = json.load(open(f))
@@ -30,5 +30,6 @@ def record(ctx, files=FILES, max_cells=64, timeout=1500):
                     events[k].append(ev)
     tail = (p.stdout + p.stderr)[-400:]
     ctx.notes['suite_run'] = {'files': files, 'pytest_tail': tail.strip().splitlines()[-1:] if tail.strip() else [],
-                              'recorded_refine_events': len(events['refine']), 'recorded_conn_events': len(events['conn'])}
+                              'recorded_refine_events': len(events['refine']), 'recorded_conn_events': len(events['conn']),
+                              'recorded_dofs_events': len(events['dofs']), 'recorded_bc_events': len(events['bc'])}
     return events
